@@ -343,5 +343,36 @@ PROPS["C18"] = {
     "assumptions": ["honest server content", "tries >= 1"],
 }
 
+PROPS["C20"] = {
+    "package": "c20", "exe": "m_c20",
+    "repo_builds": [{"cmd": ["cargo", "build", "-p", "tuftool", "--offline"], "cwd": "/repo",
+                     "env": {"CARGO_TARGET_DIR": "/verif/.work/tuftool-target", "CARGO_PROFILE_DEV_DEBUG": "0"}}],
+    "env": {"TUFTOOL": "/verif/.work/tuftool-target/debug/tuftool"},
+    "rule": "sequences of 3..12 random `tuftool root` sub-commands (init [--version], add-key with 1-2 keys x 1-3 roles incl. "
+            "repeats, remove-key with/without role, set-threshold, set-version incl. 2^32 and 2^64-1, bump-version, expire, sign "
+            "with 1-2 keys [--cross-sign <earlier copy>] [-i]) over six real key files (RSA, Ed25519, ECDSA), 4 of 5 sequences "
+            "start from a usable root; 150 sequences quick / 1500 thorough, plus the repaired defect as a corpus case. The real "
+            "binary (built from /repo's tree) is run once per command; after every command the file is parsed with tough's "
+            "schema and abstracted (key table, role key lists, thresholds, version, for every signature: by which key and "
+            "whether it verifies over the CURRENT content, self-verification, stray files in the directory). Non-trivial: a "
+            "sign followed by a content-changing command, a threshold above 1, or a cross-sign.",
+    "explanation": "Theorems (Tough/Props/C20.lean): for every command sequence of any length, every signature in the file "
+                   "is over the current content and no key signs twice (step_inv, run_inv); a successful content-changing "
+                   "command leaves no signatures (content_change_clears_sigs); a failed command leaves the file as it was "
+                   "(failed_command_leaves_file); a successful plain `sign` yields a file that verifies under its own root "
+                   "role (plain_sign_self_verifies); the pre-fix sign is refuted by a concrete witness. Correspondence: "
+                   "exit status and abstracted file after every command vs the model; the property is also evaluated "
+                   "directly on what the binary left behind.",
+    "level_text": "Kernel-checked invariant over arbitrary command sequences of the root-file state machine; differential "
+                  "runs of the real tuftool binary, file inspected after every command.",
+    "level_note": "PARTIAL with respect to the runtime: a crash of tuftool between truncating and writing root.json (the file is "
+                  "written in place, not via rename) is outside the model; key generation (gen-rsa-key) is not driven; "
+                  "signatures are abstracted to (key, content) pairs, their cryptographic validity over the current content is "
+                  "checked by the harness with tough's own verifier.",
+    "trusted": ["modelled, not verified: clap argument parsing, serde (de)serialisation of root.json, aws-lc signature primitives",
+                "the harness's abstraction of root.json uses tough::schema (Root::verify_role, Key::key_id)"],
+    "assumptions": ["key files name distinct keys", "no crash during the in-place write of root.json"],
+}
+
 _PENDING = "check under construction in this session (DESIGN.md §10 order of work); not claimed until it runs"
 NOT_APPLICABLE = {f"C{i:02d}": _PENDING for i in range(1, 21)}
